@@ -90,7 +90,7 @@ def r1(run: Run, src):
     run.ok('C19.R1', 'Excel.parse/report-key/shape', f'key literal parts {lits}', nontrivial=False, loc=loc)
 
 
-def r2(run: Run, src, cg):
+def _r2_gate_shape(run: Run, src, cg):
     lib = library_exceptions(src)
     from .common import inlined_function
     fi = inlined_function(src, 'Parser._translate')
@@ -139,6 +139,19 @@ def r2(run: Run, src, cg):
             run.check(recv in args, 'C19.R2', f'Parser._translate/{s.func.attr}/same-workbook', 'different-workbook',
                       f'the gate checks `{recv}` but `{ast.unparse(s)[:60]}` translates another object', fact=f'{recv} is translated',
                       loc=loc_of(fi.module.path, s))
+
+
+def r2(run: Run, src, cg):
+    """where the gate stands: decided by evaluation of the Parser facade on setter / request histories (an unsafe workbook is
+    rejected exactly when the check is on at the time of the request, before anything is translated, again on every request);
+    the structural reading of _translate is the fallback.  What is_safe raises and carries is read structurally."""
+    from . import parser_eval
+    try:
+        parser_eval.evaluate_histories(run, 'C19.R2', src)
+    except AnalysisError as e:
+        run.note(f'C19.R2: the gate by structure ({e.reason[:120]})')
+        _r2_gate_shape(run, src, cg)
+    lib = library_exceptions(src)
     # is_safe raises iff the map is non-empty
     ex = src.cls('Excel')
     iss = ex.methods.get('is_safe')
